@@ -348,3 +348,187 @@ _c06_base = harnesses
 
 def harnesses(tier):   # noqa: F811
     return _c06_base(tier) + [FactorRendering(), BaseConversionUnit()]
+
+
+# --------------------------------------------------------------------------------------------------------------
+# The regrouping of base units into named derived units (`fast_decompose`, then `pretty_unit`'s long names): whatever it
+# picks, expanding the picked name back gives the original dimensionality.
+
+DERIVED = {'newton': {'kg': 1, 'm': 1, 's': -2}, 'joule': {'kg': 1, 'm': 2, 's': -2}, 'watt': {'kg': 1, 'm': 2, 's': -3},
+           'pascal': {'kg': 1, 'm': -1, 's': -2}, 'hertz': {'s': -1}, 'area': {'m': 2}}
+
+
+class Regrouping(Harness):
+    name = 'number.pretty_unit.regrouping_preserves_dimension'
+    props = ('C06', 'C04')
+    entry_name = 'Number::pretty_unit -> algorithms::fast_decompose'
+    loop_bound = 60
+    max_paths = 60000
+    _concrete = None
+
+    def __init__(self, names, hi):
+        self.names, self.hi = names, hi
+        self.describe = ('Number::pretty_unit (real fast_decompose and long-name mapping) on an arbitrary dimensionality over kg, m, s with '
+                         'exponents within +-%d and the derived units %s: the display dimensionality, with the one derived name it may '
+                         'introduce expanded back and long names mapped back, is the original dimensionality') % (hi, names)
+        self.bounds = ['base units kg, m, s; |exponent| <= %d; derived-unit table %s' % (hi, {n: DERIVED[n] for n in names})]
+        self.expect_classes = ['return']
+
+    def build(self, ex, I):
+        U3 = ('kg', 'm', 's')
+        D, ent = sym_dim(ex, I, 'd', U3, lo=-self.hi, hi=self.hi)
+        v = I.real('v')
+        dm = MapV()
+        for n in self.names:
+            dstruct = dim({k: (True, e) for k, e in DERIVED[n].items()})
+            from mirsym.lib import freeze
+            dm.ent[freeze(dstruct)] = [dstruct, True, n]
+        long_names = MapV()
+        for short, long_ in (('kg', 'kilogram'), ('m', 'meter'), ('s', 'second')):
+            long_names.ent[short] = [short, True, long_]
+        reg = make_struct(ex, 'Registry', {'decomposition_units': dm, 'base_unit_long_names': long_names})
+        ctxv = make_struct(ex, 'Context', {'registry': reg, 'temporaries': MapV(), 'previous_result': none(ex)})
+        return [ref(number(rational(v), D)), ref(ctxv)], {'ent': ent}
+
+    def entry(self, ex, args, ctx):
+        return ex.call(None, 'types::number::Number::pretty_unit', list(args))
+
+    def post(self, ex, ctx, outcome):
+        ent = ctx['ent']
+        out = dim_entries(outcome[1])
+        back = {'kilogram': 'kg', 'meter': 'm', 'second': 's'}
+        obs = []
+        for u in ('kg', 'm', 's'):
+            total = z3.IntVal(0)
+            for k, (p, e) in out.items():
+                if back.get(k) == u or k == u:
+                    total = total + z3.If(zbool(p), zint(e), 0)
+                elif k in DERIVED:
+                    total = total + z3.If(zbool(p), zint(e) * DERIVED[k].get(u, 0), 0)
+            po, eo = ent[u]
+            obs.append(('display unit expanded back: exponent of %s is the original' % u, total == z3.If(zbool(po), zint(eo), 0)))
+        known = set(back) | set(back.values()) | set(DERIVED)
+        obs.append(('only base units and names of the derived-unit table appear (%s)' % sorted(out), all(k in known for k in out)))
+        for k, (p, e) in out.items():
+            obs.append(('no zero exponent carried for %s' % k, z3.Implies(zbool(p), zint(e) != 0)))
+        return obs
+
+    READBACK = ['kilogram', 'gram', 'meter', 'second', 'newton', 'joule', 'watt', 'pascal', 'hertz', 'gray', 'sievert', 'becquerel', 'kg', 'm', 's',
+                'poiseuille', 'stokes', 'rayl', 'mpg', 'liter', 'hectare', 'are', 'diopter', 'tonne', 'millimeter', 'kilometer']
+
+    def native(self, inputs, label):
+        d = conc_dim(inputs, 'd', ('kg', 'm', 's'))
+        text = '1' + ''.join(' %s^%d' % (k, e) for k, e in d.items())
+        return [{'mode': 'query', 'text': text}] + [{'mode': 'lookup', 'name': n} for n in self.READBACK]
+
+    def judge(self, inputs, label, obs):
+        """read the displayed unit back with rink's own lookup: the product of the printed names is the original dimensionality"""
+        q = obs[0]
+        if q.get('outcome') == 'panic' or q.get('render_panic'):
+            return True, 'panic %s' % (q.get('panic') or q.get('render_panic'))
+        j = (q.get('json') or {})
+        d = {k: e for k, e in conc_dim(inputs, 'd', ('kg', 'm', 's')).items() if e}
+        if j.get('type') != 'number':
+            return False, 'not a plain number reply: %s' % q.get('display')
+        shown = j.get('rawUnit')
+        if shown is None:
+            shown = j.get('rawDimensions') or {}
+        table = {}
+        for n, o in zip(self.READBACK, obs[1:]):
+            lk = o.get('lookup')
+            if lk:
+                table[n] = {k: int(e) for k, e in lk['unit'].items()}
+        dims = {}
+        for uname, e in shown.items():
+            if uname not in table:
+                return False, 'printed unit %s is not in the read-back table' % uname
+            for k, x in table[uname].items():
+                dims[k] = dims.get(k, 0) + x * int(e)
+        dims = {k: e for k, e in dims.items() if e}
+        return (dims != d), 'display %r: the printed unit reads back as %s, the quantity is %s' % (q.get('display'), dims, d)
+
+
+_c06_prev2 = harnesses
+
+
+def harnesses(tier):   # noqa: F811
+    names = ['newton', 'joule', 'hertz'] if tier == 'quick' else ['newton', 'joule', 'watt', 'pascal', 'hertz', 'area']
+    return _c06_prev2(tier) + [Regrouping(names, 2 if tier == 'quick' else 3)]
+
+
+# --------------------------------------------------------------------------------------------------------------
+# The text of a unit (`Number::unit_to_string`): read back, it denotes the dimensionality it was printed from.
+
+def denote_unit_text(text):
+    import re as _r
+    out = {}
+    sign = 1
+    for tok in text.split():
+        if tok == '/':
+            sign = -1
+            continue
+        m = _r.match(r'^([A-Za-z_]+)(?:\^(-?\d+))?$', tok)
+        if not m:
+            return None
+        out[m.group(1)] = out.get(m.group(1), 0) + sign * (int(m.group(2)) if m.group(2) else 1)
+    return {k: e for k, e in out.items() if e}
+
+
+class UnitText(Harness):
+    name = 'number.unit_to_string.denotes_unit'
+    props = ('C06', 'C04')
+    entry_name = 'Number::unit_to_string'
+    loop_bound = 40
+    _concrete = None
+
+    def __init__(self, hi):
+        self.hi = hi
+        self.describe = ('Number::unit_to_string on an arbitrary dimensionality over kg, m, s (|exponent| <= %d): the text `a b^2 / c^3`, read back '
+                         '(powers, one `/`), denotes exactly that dimensionality; no leading or trailing blank') % hi
+        self.bounds = ['base units kg, m, s; |exponent| <= %d' % hi]
+        self.expect_classes = ['return']
+
+    def build(self, ex, I):
+        D, ent = sym_dim(ex, I, 'd', ('kg', 'm', 's'), lo=-self.hi, hi=self.hi)
+        ex.env['fmt_int_range'] = (-self.hi, self.hi)
+        return [ref(D)], {'ent': ent}
+
+    def entry(self, ex, args, ctx):
+        return ex.call(None, 'types::number::Number::unit_to_string', list(args))
+
+    def post(self, ex, ctx, outcome):
+        text = deref_all(outcome[1])
+        if not isinstance(text, str):
+            return [('the unit text is a string', False)]
+        den = denote_unit_text(text)
+        if den is None:
+            return [('the unit text %r is made of names, powers and one `/`' % text, False)]
+        obs = [('no leading or trailing blank in %r' % text, text == text.strip())]
+        for u in ('kg', 'm', 's'):
+            p, e = ctx['ent'][u]
+            obs.append(('%r denotes the exponent of %s' % (text, u), z3.If(zbool(p), zint(e), 0) == den.get(u, 0)))
+        obs.append(('no foreign name in %r' % text, all(k in ('kg', 'm', 's') for k in den)))
+        return obs
+
+    def native(self, inputs, label):
+        d = conc_dim(inputs, 'd', ('kg', 'm', 's'))
+        return [{'mode': 'query', 'text': '1' + ''.join(' %s^%d' % (k, e) for k, e in d.items())}]
+
+    def judge(self, inputs, label, obs):
+        q = obs[0]
+        if q.get('outcome') == 'panic' or q.get('render_panic'):
+            return True, 'panic %s' % (q.get('panic') or q.get('render_panic'))
+        d = conc_dim(inputs, 'd', ('kg', 'm', 's'))
+        j = q.get('json') or {}
+        dims = j.get('dimensions')
+        if dims is None:
+            return False, 'no dimensions text in the reply %s' % q.get('display')
+        den = denote_unit_text(dims)
+        return (den != {k: e for k, e in d.items() if e}), 'dimensions text %r denotes %s, the quantity has %s' % (dims, den, d)
+
+
+_c06_prev3 = harnesses
+
+
+def harnesses(tier):   # noqa: F811
+    return _c06_prev3(tier) + [UnitText(2 if tier == 'quick' else 4)]
